@@ -19,7 +19,6 @@ NA = {
 }
 
 PENDING = {
-    'C16': 'history',
 }
 
 CHECKS = {
@@ -59,6 +58,10 @@ CHECKS = {
                 technique='deterministic storage simulation: store-vs-model runs on simulated storage (file= and filename= seams) plus a complete per-image sweep of single-byte at-rest faults (truncation at every offset, every byte overwritten with 6 boundary values) checked as a load-save-load fixed point',
                 text='Three configurations reported separately. roundtrip (fault-free): generated files (types 0/1/2, 0-4 tracks, channel messages with runs of equal status, system common, sysex payloads 0..16384, every known meta type with boundary values, unknown metas, end_of_track missing/repeated/in the middle, deltas at every variable-length-quantity size boundary) are saved to and loaded from simulated storage and compared with an independent normalisation of the model (one trailing end_of_track carrying the trailing delta). unstorable: each real-time type, negative and float times, type 0 with 0 or 2 tracks must make save raise ValueError, and the system-common types must not be refused. stored_faults: for each sampled small image EVERY single-byte at-rest fault is visited plus multi-byte damage; if the damaged image still loads, saving it must either succeed and re-load to the normalised first load, or raise ValueError only for content the statement lists as unstorable.',
                 note='Exploration with a per-image complete stored-byte fault sweep. Text metas use latin1 here (charsets are C17); smpte_offset hours stay within 0..23 and sequencer_specific data is a tuple (representation details belonging to C09). Images that do not load are not judged; byte-level conformance (C08) is not judged - a reader/writer-symmetric deviation is invisible to a round trip.'),
+    'C16': dict(engine='history', category='exploration', design='3 / C16',
+                technique='deterministic simulation of edit/observe histories against hidden state: every observation repeated on a fresh object built from an independent plain-list model; never-observed twin; observations include play() on a virtual clock (complete/abandoned) and save() to simulated storage with injected write errors',
+                text='One MidiFile (empty, built from tracks, or loaded from simulated storage) receives generated histories of 2-16 operations mixing 18 kinds of documented edits (add_track, append/insert/pop/del/assign/replace on the tracks list, append/insert/extend/pop/del/sort/assign on a track, assignment of time/note/tempo on messages, track.name, type, ticks_per_beat) with observations: iteration, length, merged_track, play() on a virtual clock run to completion or abandoned part-way, save() to simulated storage, save() with an injected write error or with content that makes it raise. After every observation the same observation on a FRESH MidiFile built from an independent plain-list content model must give the identical value, bytes or exception type, the observation must not have changed the tracks, and the file\'s tracks must equal the model; a twin that received only the edits and was never observed is compared on all observation kinds at the end.',
+                note='Results are compared exactly (same code on equal contents). The plain-list model re-implements the documented list semantics of the edits, so an edit that silently does something else is reported as contents-diverged.'),
 }
 
 
